@@ -24,7 +24,7 @@
    Deliberate switches:  ZlpRule "mod" = the code, "eq" = the seeded regression C14-r4 (must violate
    UoFrameDelimited);  ExtRule "lenlcs" = after proposed fix C14-3, "len" = the code as it is (an
    extended frame is assumed as soon as LEN = FFh: a normal frame with LEN = FFh, LCS = 01h is over-read). *)
-EXTENDS Naturals, Sequences, FiniteSets, TLC
+EXTENDS Naturals, Sequences, SequencesExt, FiniteSets, TLC
 
 CONSTANTS
   Link,        \* "usbout" | "usbin" | "tty": the half of the model that Next explores
@@ -43,8 +43,8 @@ CONSTANTS
 VARIABLES cf, uo, ui, ty
 vars == <<cf, uo, ui, ty>>
 
-Min(a, b) == IF a < b THEN a ELSE b
-Max(a, b) == IF a > b THEN a ELSE b
+Min2(a, b) == IF a < b THEN a ELSE b
+Max2(a, b) == IF a > b THEN a ELSE b
 
 CfMC == [op |-> OutPkt, ip |-> InPkt, cap |-> ReadCap, x |-> ExtMark, zlp |-> ZlpRule, ext |-> ExtRule]
 
@@ -91,7 +91,7 @@ UoRetOk(o) == o.pc \in {"ret", "fail"}
 UoResult(o) == IF o.pc = "ret" THEN "ok" ELSE Errno(o.err)
 UoRet(o) == [o EXCEPT !.pc = "idle"]
 
-SegLen(t) == IF t = <<>> THEN 0 ELSE t[Len(t)][2] + t[Len(t)][3] - t[1][2]
+SegLen(t) == FoldLeft(LAMBDA a, x : a + x[3], 0, t)        \* bytes in a transfer
 \* the transfer t is exactly frame k of length n: same frame, contiguous from offset 0, complete
 IntactSegs(t, k, n) ==
   /\ t # <<>>
@@ -108,9 +108,10 @@ UoFrameDelimitedP(o) ==
       /\ o.nd = o.k
       /\ (o.k > 0 => IntactSegs(o.dlast, o.k, o.n))
 \* no transfer (complete or pending) holds bytes of two frames
-UoNoBleedP(o) == OneFrame(o.dlast) /\ OneFrame(o.dbuf)
-\* write() reports success only for a delimited frame; after a failed bulkWrite it raises
-UoResultP(o) == (o.pc = "ret") => (o.dbuf = <<>> /\ IntactSegs(o.dlast, o.k, o.n))
+UoNoBleedP(o) == ~o.broken => (OneFrame(o.dlast) /\ OneFrame(o.dbuf))
+\* write() reports success only for a delimited frame; after a failed bulkWrite it raises (and whatever part of the
+\* frame went out stays undelimited in the device: nothing is promised for later frames, `broken`)
+UoResultP(o) == (o.pc = "ret" /\ ~o.broken) => (o.dbuf = <<>> /\ IntactSegs(o.dlast, o.k, o.n))
 
 (* ====================================================================================================
    USB bulk IN.  q = transfers the device has queued: [j, n, h, off] (off > 0: head partly lost). *)
@@ -163,7 +164,7 @@ UiQueueP(i) == \A a \in DOMAIN i.q : i.q[a].j = i.nr + a
    host has taken (read or flushed).  start/al/to/over describe the current read() call. *)
 TyInit == [stream |-> <<>>, ends |-> <<>>, arr |-> 0, cons |-> 0, pc |-> "idle", ext |-> FALSE, buf |-> <<>>,
            start |-> 0, al |-> TRUE, to |-> FALSE, over |-> FALSE, dirty |-> FALSE, tmo |-> 0,
-           wpc |-> "idle", wn |-> 0, wh |-> 0, nw |-> 0, werr |-> FALSE]
+           wpc |-> "idle", wn |-> 0, wh |-> 0, werr |-> FALSE, resync |-> FALSE]
 
 Aligned(t, p) == p = 0 \/ \E e \in DOMAIN t.ends : t.ends[e] = p
 \* end of the frame that starts at the boundary p (p < Len(stream))
@@ -180,7 +181,7 @@ TyCallOk(t) == t.pc = "idle" /\ t.wpc = "idle"
 TyCall(t, tmo) == [t EXCEPT !.pc = "h6", !.buf = <<>>, !.ext = FALSE, !.start = t.cons, !.tmo = tmo,
                             !.al = Aligned(t, t.cons), !.to = FALSE]
 \* serial timeout the code has to set for a read(timeout ms) call, in ms
-TySerialTimeout(t) == Max(t.tmo, 50)
+TySerialTimeout(t) == Max2(t.tmo, 50)
 
 Ack6 == <<0, 0, 255, 0, 255, 0>>
 IsExt(b, c) == b[4] = c.x /\ (c.ext = "len" \/ b[5] = c.x)
@@ -205,7 +206,8 @@ TySr(t, c, n, got) ==
 
 TyRetOk(t) == t.pc \in {"ret", "eto", "eio"}
 TyResult(t) == CASE t.pc = "ret" -> "ok" [] t.pc = "eto" -> "ETIMEDOUT" [] OTHER -> "EIO"
-TyRet(t) == [t EXCEPT !.pc = "idle", !.dirty = @ \/ (t.to /\ ~Aligned(t, t.cons))]
+TyRet(t) == [t EXCEPT !.pc = "idle", !.dirty = @ \/ (t.to /\ ~Aligned(t, t.cons)),
+                          !.buf = <<>>, !.ext = FALSE, !.start = 0, !.al = TRUE, !.to = FALSE, !.tmo = 0]
 
 \* TTY.write(frame) = flushInput(); serial.write(frame)
 TyWCallOk(t) == t.pc = "idle" /\ t.wpc = "idle"
@@ -213,15 +215,15 @@ TyWCall(t, n, h) == [t EXCEPT !.wpc = "flush", !.wn = n, !.wh = h, !.werr = FALS
 TyFlushOk(t, dropped) == t.wpc = "flush" /\ t.cons + dropped <= Len(t.stream)
 TyFlush(t, dropped) ==
   LET nc == t.cons + dropped IN
-  [t EXCEPT !.wpc = "sw", !.cons = nc, !.arr = Max(@, nc),
+  [t EXCEPT !.wpc = "sw", !.cons = nc, !.arr = Max2(@, nc), !.resync = t.dirty /\ nc = Len(t.stream),
             !.dirty = IF nc = Len(t.stream) THEN FALSE ELSE (@ \/ ~Aligned(t, nc))]
 TySwOk(t) == t.wpc = "sw"
-TySw(t, ok) == [t EXCEPT !.wpc = "ret", !.nw = IF ok THEN @ + 1 ELSE @, !.werr = ~ok]
+TySw(t, ok) == [t EXCEPT !.wpc = "ret", !.werr = ~ok]
 TyWRetOk(t) == t.wpc = "ret"
 TyWResult(t) == IF t.werr THEN "EIO" ELSE "ok"
-TyWRet(t) == [t EXCEPT !.wpc = "idle"]
+TyWRet(t) == [t EXCEPT !.wpc = "idle", !.wn = 0, !.wh = 0, !.werr = FALSE, !.resync = FALSE]
 \* direct access of a driver to the serial object (Arygon MCU commands): bytes written / a line read
-TyDirectRead(t, got) == [t EXCEPT !.cons = @ + got, !.arr = Max(@, t.cons + got)]
+TyDirectRead(t, got) == [t EXCEPT !.cons = @ + got, !.arr = Max2(@, t.cons + got)]
 
 Reading(t) == t.pc \in {"h6", "h3", "body", "ret", "eto", "eio"}
 Known(t) == Reading(t) /\ t.al /\ t.start < Len(t.stream)
@@ -247,7 +249,7 @@ TyAlignedP(t) == (t.pc = "idle" /\ ~t.dirty) => Aligned(t, t.cons)
 
 (* ====================================================================================================
    Exhaustive model *)
-Sum(s) == LET RECURSIVE S(_) S(i) == IF i = 0 THEN 0 ELSE s[i] + S(i - 1) IN S(Len(s))
+Sum(s) == FoldLeft(LAMBDA a, x : a + x, 0, s)
 Dcs(d) == (256 - (Sum(d) % 256)) % 256
 StdFrame(d) == <<0, 0, 255, Len(d), (256 - Len(d)) % 256>> \o d \o <<Dcs(d), 0>>
 ExtFrame(d, x) == <<0, 0, 255, x, x, (Len(d) \div 256), (Len(d) % 256), (512 - (Len(d) \div 256) - (Len(d) % 256)) % 256>>
@@ -325,5 +327,5 @@ W_Truncated == ~(ty.pc = "ret" /\ ty.to /\ ty.al)
 W_HeaderEio == ~(ty.pc = "eio")
 W_Timeout == ~(ty.pc = "eto")
 W_Misaligned == ~(ty.pc = "idle" /\ ty.dirty /\ ~Aligned(ty, ty.cons))
-W_Resynced == ~(ty.wpc = "sw" /\ ~ty.dirty /\ ty.cons = Len(ty.stream) /\ Len(ty.ends) = 1 /\ ty.cons > 0 /\ ty.to)
+W_Resynced == ~(ty.wpc = "sw" /\ ty.resync)
 =============================================================================
